@@ -150,7 +150,7 @@ def run_case(case: dict) -> dict:
                         loader.load(op["arg"])
                         prev_core = None
                     else:
-                        unres, it = loader.resolve_aliases(implicit=True, external=False)
+                        unres, it = loader.resolve_aliases(implicit=True, external=(op["arg"] == "ext"))
                         rec["unres"] = sorted(unres)
                         rec["iter"] = it
                 except Hang:
@@ -217,7 +217,7 @@ def run_chunk(cases: list) -> list:
 
 
 def sched_text(case: dict) -> str:
-    return ", ".join(("load(" + o["arg"] + ")") if o["op"] == "load" else "resolve_aliases()" for o in case["ops"])
+    return ", ".join(("load(" + o["arg"] + ")") if o["op"] == "load" else ("resolve_aliases(external=True)" if o["arg"] == "ext" else "resolve_aliases()") for o in case["ops"])
 
 
 def evaluate(run: Run, case: dict, res: dict, stats: dict):
@@ -301,11 +301,11 @@ def replay_all(run: Run, cases: list, workers: int, stats: dict):
 
 # families of each tier; statement bounds, schedules and MaxOps of every family: Loader.tla (MaxTotal, Sched, MaxOps)
 TIERS = {
-    "quick": ["graph-q", "wild-q", "retarget-q", "fine"],
-    "thorough": ["graph-q", "wild", "retarget", "fine"],
+    "quick": ["graph-q", "wild-q", "retarget-q", "fine", "side", "selfcyc"],
+    "thorough": ["graph-q", "wild", "retarget", "fine", "side", "selfcyc"],
 }
 PRESENT = {"graph-q": ["p", "p.a", "p.b", "q"], "graph": ["p", "p.a", "p.b", "q"], "fine": ["p", "p.a", "p.b", "q"],
-           "wild": ["p", "p.a", "p.b"], "wild-q": ["p", "p.a", "p.b"], "retarget": ["p", "p.a", "p.b"], "retarget-q": ["p", "p.a", "p.b"]}
+           "wild": ["p", "p.a", "p.b"], "wild-q": ["p", "p.a", "p.b"], "retarget": ["p", "p.a", "p.b"], "retarget-q": ["p", "p.a", "p.b"], "selfcyc": ["p", "p.a", "p.b"], "side": ["p", "q", "r"]}
 
 
 def fam_set(fams) -> str:
@@ -349,7 +349,7 @@ def main(tier: str, replay: str | None = None):
             "record the pattern or fix the model")
     cases = res.cases
     for c in cases:
-        c["sched"] = "free" if c["family"] == "fine" else "std"
+        c["sched"] = "free" if c["family"] == "fine" else "ext" if c["family"] == "side" else "std"
         c["scale"] = tier
     res = tlc.must(jdef.result(), allow_violations=True)
     run.add_tlc(res)
